@@ -2,8 +2,17 @@
 
 Stage C: call histories on one DataLoader vs. the Lean model `Loader.runHist` (driver command `loader`), per call.
 Stage D: (1) the property as stated: every call of a history returns what the same call returns on a freshly opened
-DataLoader; (2) a fresh read returns the messages of the log reader under the same filters, limited to the first /
-last N across the requested types in file order (the reader is driven directly, without the loader).
+DataLoader (also after a call that raised: the harness goes on where the model stops); the loader's set of available
+source identifiers - the default of source_ids - is observed after every call, and a history that changed it is extended
+by a default read that bypasses the cache; (2) a fresh read returns the messages of the log reader under the same filters,
+limited to the first / last N across the requested types in file order (the reader is driven directly, without the
+loader; when the reader refuses the filters, the loader must raise the same exception); a fresh read with the default
+source_ids equals the fresh read that names get_available_source_ids(); the Lean specification `freshSpec` as oracle.
+
+Logs: short ones (<= 10 messages per type) and ones longer than what the reader samples for its available source
+identifiers (identifiers that first appear late, that disappear, single-source logs), and logs without any P1 time.
+Calls: message_types is spelled as a list of MessageType, of integers, as a numpy array, as payload classes, a tuple, a
+set, a bare MessageType / class, or a mixture with None entries.
 """
 import atexit
 import itertools
@@ -17,7 +26,7 @@ import numpy as np
 import fv
 
 MODULES = ['FeVerif.Props.C12']
-VARIANT = os.environ.get('C12_VARIANT', '11111')   # which repairs the model has (11111 = the code as it is)
+VARIANT = os.environ.get('C12_VARIANT', '111111')   # which repairs the model has (111111 = the code as it is)
 
 P, G, A, E, R, X = 10000, 10001, 10003, 13004, 13002, 11000
 INSTRUMENTED = (P, G, A, E, R, X)
@@ -86,7 +95,7 @@ def ident(m):
     return str(int(round(v)))
 
 
-def gen_log(rng, nan_p1):
+def gen_short_log(rng, nan_p1):
     """[(type, scaled P1 time or None, source id)] in file order; at most 10 messages per type; >= 1 timed."""
     n = rng.choice([6, 9, 12, 16])
     two_src = rng.random() < 0.7
@@ -117,9 +126,10 @@ def gen_log(rng, nan_p1):
             t2 = max(2, t2 - 1)      # time going backwards by half a second
     if not any(s[1] is not None for s in spec):
         spec[0] = (P, t2, 0)
-    if two_src:
+    if two_src and rng.random() < 0.8:
         # The reader discovers source ids from the first messages of each type, continuing from where the previous
         # type's scan stopped (C10); both ids among the first messages of the lowest type make the discovery complete.
+        # (One short log in five is left as generated: an id may then go undiscovered.)
         low = min(s[0] for s in spec)
         pos = [i for i, s in enumerate(spec) if s[0] == low]
         if len(pos) < 2:
@@ -128,6 +138,108 @@ def gen_log(rng, nan_p1):
         spec[pos[0]] = (low, spec[pos[0]][1], 0)
         spec[pos[1]] = (low, spec[pos[1]][1], 1)
     return spec
+
+
+SOURCE_SCENARIOS = ['single', 'single-nonzero', 'late', 'late', 'late', 'late2', 'early', 'early+late', 'early+late', 'mixed',
+                    'late-only-tail']
+
+
+def gen_long_log(rng, nan_p1):
+    """A log that is longer than what the reader samples for its set of available source identifiers.
+
+    The reader walks forward through the file, ten messages of each type in ascending type order (C10).  The body of
+    the log is generated until that walk is complete (so 10 messages for one type, ~40 for two, ~90 for three), then
+    a tail follows.  Source identifiers by scenario: one identifier only; identifiers used throughout; identifiers used
+    only in the first few messages (they disappear); identifiers first used in the tail (one or two, the second later
+    than the first); a tail that uses only new identifiers; identifiers drawn at random per message.  Which
+    identifiers the reader reports as available is measured on the real reader (Env.avail), not assumed."""
+    types = rng.choice([(P,), (A,), (P, A), (P, A), (P, G), (P, E), (A, E), (G, R), (P, G, A), (P, A, E)])
+    if len(types) == 3 and rng.random() < 0.5:
+        types = types[:2]
+    scen = rng.choice(SOURCE_SCENARIOS)
+    common = rng.choice([[0], [0], [0, 1], [1, 3]])
+    if scen == 'single':
+        common = [0]
+    elif scen == 'single-nonzero':
+        common = [rng.choice([1, 3])]
+    early_id, late_a, late_b = 2, 7, 8
+    early_len = rng.choice([1, 3, 6])
+    t2 = rng.choice([20, 21, 40])
+    spec = []
+    order = sorted(types)
+
+    def time_of(t):
+        if t in (P, G, A):
+            return None if (nan_p1 and rng.random() < 0.15) else t2
+        return None
+
+    def step():
+        nonlocal t2
+        r = rng.random()
+        if r < 0.35:
+            t2 += 2
+        elif r < 0.5:
+            t2 += 1
+        elif r < 0.53:
+            t2 = max(2, t2 - 1)
+
+    # body: until the sampling walk (10 of the lowest type, then 10 of the next from there on, ...) is complete
+    k, c = 0, 0
+    while k < len(order):
+        t = rng.choice(types)
+        i = len(spec)
+        if scen in ('early', 'early+late') and i < early_len:
+            src = early_id if (i == 0 or rng.random() < 0.6) else rng.choice(common)
+        elif scen == 'mixed':
+            src = rng.choice(common + [early_id, late_a] if i > 2 * early_len else common + [early_id])
+        else:
+            src = rng.choice(common)
+        spec.append((t, time_of(t), src))
+        step()
+        if t == order[k]:
+            c += 1
+            if c == 10:
+                k, c = k + 1, 0
+    # margin, then the tail
+    for _ in range(rng.choice([0, 1, 4])):
+        t = rng.choice(types)
+        spec.append((t, time_of(t), rng.choice(common)))
+        step()
+    tail = rng.choice([4, 8, 14])
+    for j in range(tail):
+        t = rng.choice(types)
+        if scen in ('late', 'early+late'):
+            src = late_a if (j == 0 or rng.random() < 0.5) else rng.choice(common)
+        elif scen == 'late2':
+            pool = common + [late_a] + ([late_b] if j >= tail // 2 else [])
+            src = late_a if j == 0 else (late_b if j == tail - 1 else rng.choice(pool))
+        elif scen == 'late-only-tail':
+            src = late_a
+        elif scen == 'mixed':
+            src = rng.choice(common + [late_a, late_b])
+        else:
+            src = rng.choice(common)
+        spec.append((t, time_of(t), src))
+        step()
+    if not any(s[1] is not None for s in spec):
+        spec[0] = (P, t2, spec[0][2])
+    return spec
+
+
+def gen_untimed_log(rng):
+    """A log without any P1 time (EventNotification / ResetRequest only): a read with a time range raises in the reader."""
+    n = rng.choice([3, 5, 8])
+    two = rng.random() < 0.4
+    return [(rng.choice([E, E, R]), None, rng.choice([0, 1]) if two else 0) for _ in range(n)]
+
+
+def gen_log(rng, nan_p1, long_share=0.4):
+    r = rng.random()
+    if r < 0.07:
+        return gen_untimed_log(rng)
+    if r < 0.07 + long_share:
+        return gen_long_log(rng, nan_p1)
+    return gen_short_log(rng, nan_p1)
 
 
 def write_log(F, spec, name):
@@ -144,13 +256,32 @@ def write_log(F, spec, name):
 
 # ---- calls ------------------------------------------------------------------------------------------
 DEFAULT_CALL = dict(types=None, tr=None, src=None, ic=False, max=None, rp1=False, rsys=False, inorder=False, ridx=False,
-                    numpy=False, keep=False, rmnan=True, align=0, aligned=None)
+                    numpy=False, keep=False, rmnan=True, align=0, aligned=None, tform='enum')
+# how message_types is spelled in the call (the model sees the normalised set): a list of MessageType, of plain integers,
+# a numpy array of the values, a list of payload classes, a tuple, a set, or (one type) the bare MessageType / class
+TFORMS = ['int', 'ndarray', 'class', 'tuple', 'set', 'single', 'single-class', 'mixed']
 
 
-def gen_call(rng, spec, nan_p1):
+def src_choices(spec, avail):
+    """Source-id sets worth requesting on this log: every single id, all ids, exactly what the reader reports as
+    available, the ids the reader did not discover, the available ones plus one undiscovered, an id absent from the log."""
+    ids = sorted(set(s[2] for s in spec))
+    avail = sorted(avail) if avail is not None else ids
+    hidden = [i for i in ids if i not in avail]
+    absent = 5
+    out = [(i,) for i in ids] + [tuple(ids), tuple(avail), (ids[0], absent), (absent,)]
+    if len(ids) > 2:
+        out.append(tuple(ids[:2]))
+        out.append(tuple(ids[1:]))
+    if hidden:
+        out += [tuple(hidden), tuple(sorted(avail + hidden[:1])), (hidden[0],), (hidden[0],)]
+    return [o for o in out if o]
+
+
+def gen_call(rng, spec, nan_p1, avail=None):
     present = sorted(set(s[0] for s in spec))
     times = [s[1] for s in spec if s[1] is not None]
-    lo, hi = min(times), max(times)
+    lo, hi = (min(times), max(times)) if times else (20, 40)
     c = dict(DEFAULT_CALL)
     r = rng.random()
     if r < 0.12:
@@ -159,7 +290,9 @@ def gen_call(rng, spec, nan_p1):
         k = rng.choice([1, 1, 2, 2, 3, 4])
         pool = present + ([X] if rng.random() < 0.15 else [])
         c['types'] = tuple(sorted(rng.sample(pool, min(k, len(pool)))))
-    if rng.random() < 0.35:
+    if c['types'] is not None and rng.random() < 0.25:
+        c['tform'] = rng.choice(TFORMS)
+    if rng.random() < (0.35 if times else 0.6):
         absolute = rng.random() < 0.6
         base = 0 if absolute else lo
         grid = [None, None, lo - 2, lo, lo + 2, (lo + hi) // 2, hi, hi + 1, hi + 10]
@@ -170,9 +303,13 @@ def gen_call(rng, spec, nan_p1):
             s = 0.0
         c['tr'] = (s, e, absolute)
     if rng.random() < 0.3:
-        c['src'] = rng.choice([(0,), (1,), (0, 1), (0, 5), (5,)])
+        c['src'] = rng.choice(src_choices(spec, avail))
     if rng.random() < 0.45:
         c['max'] = rng.choice([1, 2, 3, 5, 50, -1, -2, -3, -5, -50, 0])
+        if len(spec) > 20 and rng.random() < 0.5:
+            # long logs: cuts that fall inside the body / the tail, and one larger than the log
+            n = len(spec)
+            c['max'] = rng.choice([1, -1]) * rng.choice([4, 8, 10, 11, n // 4, n // 2, n - 6, n - 1, n, n + 1, 3 * n])
     c['rp1'] = rng.random() < 0.2
     c['rsys'] = rng.random() < 0.06
     c['inorder'] = rng.random() < 0.12
@@ -188,16 +325,20 @@ def gen_call(rng, spec, nan_p1):
     return c
 
 
-def mutate_call(rng, c, spec, nan_p1):
+def mutate_call(rng, c, spec, nan_p1, avail=None):
     """A later call of a history: usually an earlier call with one or two arguments changed (so that the cache is hit)."""
     d = dict(c)
-    fresh = gen_call(rng, spec, nan_p1)
+    fresh = gen_call(rng, spec, nan_p1, avail)
     keys = rng.sample(['types', 'tr', 'src', 'max', 'rp1', 'inorder', 'ridx', 'numpy', 'keep', 'rmnan', 'align', 'ic', 'types',
-                       'numpy', 'keep', 'max', 'align'], rng.choice([0, 1, 1, 2, 3]))
+                       'numpy', 'keep', 'max', 'align', 'tform'], rng.choice([0, 1, 1, 2, 3]))
     for k in keys:
         d[k] = fresh[k]
         if k == 'align':
             d['aligned'] = fresh['aligned']
+        if k == 'tform' and d['types'] is not None:
+            d['tform'] = rng.choice(TFORMS + ['enum'])
+    if d['types'] is None:
+        d['tform'] = 'enum'
     if nan_p1:
         d['align'] = 0
         d['aligned'] = None
@@ -225,21 +366,99 @@ def toggle_open_start(rng, c, spec):
     return d
 
 
-def gen_history(rng, spec, nan_p1, length):
-    h = [gen_call(rng, spec, nan_p1)]
+def toggle_src(rng, c, spec, avail):
+    """A call that differs from `c` only in source_ids: default <-> explicit (the available set, every id of the log, a
+    single id, ...).  The default is whatever the reader reports as available when the call is made, so the pair
+    default / explicit-available must return the same, in either order and whatever was read in between."""
+    opts = [None, None, tuple(sorted(avail)), tuple(sorted(set(s[2] for s in spec)))] + src_choices(spec, avail)
+    opts = [o for o in opts if o != c['src']]
+    return dict(c, src=rng.choice(opts))
+
+
+def sweep_call(rng, spec):
+    """A read with default source_ids that passes over (most of) the log: no maximum, no or a wide time range."""
+    present = sorted(set(s[0] for s in spec))
+    c = dict(DEFAULT_CALL)
+    r = rng.random()
+    if r < 0.3:
+        c['types'] = None
+    elif r < 0.6:
+        c['types'] = tuple(present)
+    else:
+        c['types'] = tuple(sorted(rng.sample(present, rng.choice(list(range(1, len(present) + 1))))))
+    c['numpy'] = rng.random() < 0.3
+    c['keep'] = rng.random() < 0.5
+    c['ridx'] = rng.random() < 0.3
+    c['inorder'] = rng.random() < 0.15
+    c['ic'] = rng.random() < 0.15
+    return c
+
+
+def gen_history(rng, spec, nan_p1, length, avail=None):
+    multi = len(set(s[2] for s in spec)) > 1
+    h = [sweep_call(rng, spec) if (multi and rng.random() < 0.2) else gen_call(rng, spec, nan_p1, avail)]
     while len(h) < length:
         r = rng.random()
-        if r < 0.12:
+        if avail is not None and r < (0.3 if multi else 0.04):
+            # source_ids: default and explicit, in both orders, possibly with another read in between
+            base = rng.choice(h)
+            t = toggle_src(rng, base, spec, avail)
+            q = rng.random()
+            if q < 0.35 and len(h) + 1 < length:
+                h.append(sweep_call(rng, spec))
+            h.append(t)
+            if q > 0.6 and len(h) < length:
+                back = dict(base)
+                k = rng.choice(['ic', 'types', 'inorder', 'max', 'same'])
+                if k == 'ic':
+                    back['ic'] = True
+                elif k == 'inorder':
+                    back['inorder'] = True
+                elif k != 'same':
+                    back[k] = gen_call(rng, spec, nan_p1, avail)[k]
+                h.append(back)
+        elif r < 0.12 + (0.3 if multi else 0.04):
             base = rng.choice(h)
             t = toggle_open_start(rng, base, spec)
             if t['types'] != base['types'] and len(h) + 1 < length:
                 h.append(dict(base, types=t['types'], align=0, aligned=None))
             h.append(t)
-        elif r < 0.65:
-            h.append(mutate_call(rng, rng.choice(h), spec, nan_p1))
+        elif r < 0.47 + (0.3 if multi else 0.04):
+            # the same call again, exactly (a call that raised must raise again) or with message_types spelled differently
+            base = rng.choice(h)
+            d = dict(base)
+            if d['types'] is not None and rng.random() < 0.7:
+                d['tform'] = rng.choice([t for t in TFORMS + ['enum'] if t != base['tform']])
+            h.append(d)
+        elif r < 0.72:
+            h.append(mutate_call(rng, rng.choice(h), spec, nan_p1, avail))
         else:
-            h.append(gen_call(rng, spec, nan_p1))
+            h.append(gen_call(rng, spec, nan_p1, avail))
     return h[:max(length, 1)]
+
+
+def spell_types(F, types, tform):
+    M = F['M']
+    MT = M.MessageType
+    enums = [MT(t) for t in types]
+    classes = [M.message_type_to_class[e] for e in enums]
+    if tform == 'int':
+        return [int(t) for t in types]
+    if tform == 'ndarray':
+        return np.array([int(t) for t in types])
+    if tform == 'class':
+        return classes
+    if tform == 'tuple':
+        return tuple(enums)
+    if tform == 'set':
+        return set(enums)
+    if tform == 'single' and len(enums) == 1:
+        return enums[0]
+    if tform == 'single-class' and len(enums) == 1:
+        return classes[0]
+    if tform == 'mixed':
+        return [(enums[i], classes[i], int(types[i]))[i % 3] for i in range(len(types))] + [None]
+    return enums
 
 
 def kwargs_of(F, c):
@@ -249,7 +468,7 @@ def kwargs_of(F, c):
               keep_messages=c['keep'], remove_nan_times=c['rmnan'],
               time_align=F['TimeAlignmentMode'](c['align']))
     if c['types'] is not None:
-        kw['message_types'] = [MT(t) for t in c['types']]
+        kw['message_types'] = spell_types(F, c['types'], c.get('tform', 'enum'))
     if c['tr'] is not None:
         kw['time_range'] = F['TimeRange'](start=c['tr'][0], end=c['tr'][1], absolute=c['tr'][2])
     if c['src'] is not None:
@@ -283,6 +502,11 @@ def call_text(F, c):
                      'n' if c['max'] is None else str(c['max']), str(int(c['rp1'])), str(int(c['rsys'])),
                      str(int(c['inorder'])), str(int(c['ridx'])), str(int(c['numpy'])), str(int(c['keep'])),
                      str(int(c['rmnan'])), str(c['align']), dots(c['aligned'])])
+
+
+def call_key(F, c):
+    """The call as made (the model's call text plus the spelling of message_types)."""
+    return call_text(F, c) + '#' + (c.get('tform', 'enum') if c['types'] is not None else 'enum')
 
 
 # ---- observing the real code --------------------------------------------------------------------------
@@ -337,6 +561,15 @@ def canon_result(F, res, order):
     return '|'.join(parts)
 
 
+def model_prefix(out):
+    """The model's `runHist` stops at the first call that raises; the harness goes on (a later call must still equal the
+    fresh call)."""
+    for i, o in enumerate(out):
+        if o.startswith('E:'):
+            return out[:i + 1]
+    return out
+
+
 def mask_model(text):
     """The model reports arrays for every type; the harness reads them only for the instrumented classes."""
     out = []
@@ -385,7 +618,10 @@ class Env:
         k = tr_key(self.F, c)
         if k not in self.tr_sel:
             tr = kwargs_of(self.F, c).get('time_range', self.F['TimeRange']())
-            self.tr_sel[k] = [int(i) for i in self.index[tr].message_index]
+            try:
+                self.tr_sel[k] = [int(i) for i in self.index[tr].message_index]
+            except IndexError:
+                self.tr_sel[k] = None       # the reader refuses the time range (a log without P1 time): outside the model
         return k, self.tr_sel[k]
 
     def run_call(self, ld, c):
@@ -400,11 +636,14 @@ class Env:
         out = []
         hits = 0
         seen = set()
+        self.avail_after = []       # get_available_source_ids() after every call (the default of source_ids)
         for c in calls:
             text, res = self.run_call(ld, c)
             out.append(text)
-            if text.startswith('E:'):
-                break
+            try:
+                self.avail_after.append(sorted(int(x) for x in ld.get_available_source_ids()))
+            except Exception as e:
+                self.avail_after.append('E:%s' % type(e).__name__)
             if isinstance(res, dict):
                 for v in res.values():
                     if id(v) in seen:
@@ -417,7 +656,7 @@ class Env:
         return out, hits
 
     def fresh(self, c):
-        k = call_text(self.F, c)
+        k = call_key(self.F, c)
         if k not in self.fresh_cache:
             self.fresh_cache[k] = self.run_call(self.loader(), c)[0]
         return self.fresh_cache[k]
@@ -432,7 +671,9 @@ class Env:
         rd = F['MixedLogReader'](self.path, num_threads=1, return_bytes=False, return_message_index=True)
         kw = kwargs_of(F, c)
         rd.filter_in_place(kw.get('time_range', F['TimeRange']()))
-        rd.filter_in_place(kw.get('message_types', list(M.message_type_to_class.keys())))
+        # the reader is given the requested set of types as MessageType values, however the loader call spelled them
+        rd.filter_in_place([M.MessageType(t) for t in c['types']] if c['types'] is not None
+                           else list(M.message_type_to_class.keys()))
         rd.filter_in_place(None, source_ids=set(c['src']) if c['src'] is not None else rd.get_available_source_ids())
         if c['rp1'] and not c['rsys']:
             rd.filter_out_invalid_p1_times()
@@ -475,7 +716,7 @@ def registry_text(F):
 
 
 # ---- signatures -------------------------------------------------------------------------------------------
-KEY_NAMES = {'keep': 'keep_messages', 'numpy': 'return_numpy', 'align': 'time_align', 'aligned': 'aligned_message_types',
+KEY_NAMES = {'tform': 'message_types_spelling', 'keep': 'keep_messages', 'numpy': 'return_numpy', 'align': 'time_align', 'aligned': 'aligned_message_types',
              'types': 'message_types', 'max': 'max_messages', 'tr': 'time_range', 'src': 'source_ids', 'rp1': 'require_p1_time',
              'rsys': 'require_system_time', 'ridx': 'return_message_index', 'rmnan': 'remove_nan_times', 'ic': 'ignore_cache',
              'inorder': 'return_in_order'}
@@ -498,11 +739,37 @@ def shrink_history(env, hist):
     return hist
 
 
+def default_sources_culprit(env, hist):
+    """The last call uses the default source_ids, the loader's available set is no longer the one of a fresh loader when
+    it is made, and the same history is transparent once the last call names the fresh loader's available set."""
+    last = hist[-1]
+    if last['src'] is not None or len(hist) < 2:
+        return False
+    env.run_history(hist[:-1])
+    if not env.avail_after or env.avail_after[-1] == env.avail:
+        return False
+    explicit = dict(last, src=tuple(env.avail))
+    return env.fresh(explicit) == env.fresh(last) and transparent(env, hist[:-1] + [explicit])
+
+
 def transparency_signature(env, hist):
+    if default_sources_culprit(env, hist):
+        return 'C12/default-source-ids-depend-on-earlier-reads'
+    if len(hist) >= 2:
+        env.run_history(hist[:-1])
+        if env.avail_after and env.avail_after[-1] != env.avail:
+            # the reader's set of available identifiers (also referenced by the params of cached entries) was altered
+            return 'C12/available-source-ids-changed-by-earlier-reads'
+    out, _ = env.run_history(hist)
+    if env.fresh(hist[-1]).startswith('E:') and not out[-1].startswith('E:'):
+        # the call raises on a fresh loader; after the earlier reads it is answered (from cache entries)
+        if len(hist) >= 2 and call_key(env.F, hist[-2]) == call_key(env.F, hist[-1]) and \
+                env.fresh(hist[-2]).startswith('E:'):
+            return 'C12/call-that-raised-is-answered-when-repeated'
+        return 'C12/call-that-raises-on-a-fresh-loader-is-answered-after-earlier-reads'
     if len(hist) != 2:
         return 'C12/cache-not-transparent:history-of-%d' % len(hist)
     c0, c1 = hist
-    out, _ = env.run_history(hist)
     if out[-1].startswith('E:') and not env.fresh(c1).startswith('E:'):
         return 'C12/cached-entry-append-raises'
     diff = [k for k in DEFAULT_CALL if c0[k] != c1[k]]
@@ -534,15 +801,57 @@ def spec_ids(env, c, t, ids):
     return lst([str(i) for i in ids])
 
 
+def returned_ids(c, text):
+    """Identities a result holds: from the messages, or from the numpy columns when the messages were cleared."""
+    col = 3 if (c['numpy'] and not c['keep'] and not c['inorder']) else 1
+    got = set()
+    for part in (text.split('|')[1:] if not c['inorder'] else [text]):
+        f = part.split('/')
+        if len(f) > col and f[col] not in ('-', '~', '?'):
+            got |= set(f[col].split('.'))
+    return got
+
+
+def undiscovered_in_scope(env, c):
+    """Entries the time range and the requested types select whose source identifier the reader did not discover, for a
+    call that asks for exactly the available identifiers (the default) with a maximum and no require_* flag: the case in
+    which the loader cuts the index to N entries although the source identifier is still tested when a message is read
+    (hypothesis `hs` of C12_read_fresh_spec)."""
+    if c['max'] is None or c['rp1'] or c['rsys']:
+        return []
+    if c['src'] is not None and set(c['src']) != set(env.avail):
+        return []
+    _, sel = env.selection(c)
+    types = set(env.order(c))
+    return [o for o in sel if env.spec[o][0] in types and env.spec[o][2] not in env.avail]
+
+
+def undiscovered_signature(c):
+    return 'C12/max-messages-before-source-filter:undiscovered-source-id:%s' % ('last-n' if c['max'] < 0 else 'first-n')
+
+
 def check_fresh_spec(ctx, env, c, fresh_text):
     """Fresh read = reader under the same filters, first/last N across types in file order (no alignment)."""
     if c['align'] != 0 and not c['inorder']:
         return
+    try:
+        exp, full = env.reader_expected(c)
+        reader_raises = None
+    except Exception as e:
+        reader_raises = type(e).__name__
     if fresh_text.startswith('E:'):
-        ctx.violation('C12/fresh-read-raises', 'read() on a fresh loader raised %s' % fresh_text[2:],
+        if reader_raises == fresh_text[2:]:
+            # the log reader refuses the same filters with the same exception (a time range on a log without P1 time)
+            ctx.count('fresh_read_raises_as_the_reader_does')
+            return
+        ctx.violation('C12/fresh-read-raises', 'read(%s) on a fresh loader raised %s; the reader under the same filters %s' %
+                      (describe(c), fresh_text[2:], 'raises ' + reader_raises if reader_raises else 'does not raise'),
                       replay_obj(env, [c]))
         return
-    exp, full = env.reader_expected(c)
+    if reader_raises is not None:
+        ctx.violation('C12/fresh-read-differs-from-reader', 'fresh read(%s) returned %s; the reader under the same filters raises %s' %
+                      (describe(c), fresh_text[:300], reader_raises), replay_obj(env, [c]))
+        return
     if c['inorder']:
         got = fresh_text.split('/')[1]
         want = lst([str(o) for _, o in exp])
@@ -575,25 +884,44 @@ def check_fresh_spec(ctx, env, c, fresh_text):
     n = c['max']
     sig = 'C12/fresh-read-differs-from-reader'
     if n is not None:
-        # identities actually returned: from the messages, or from the numpy columns when the messages were cleared
-        col = 3 if (c['numpy'] and not c['keep'] and not c['inorder']) else 1
-        got = set()
-        for part in (fresh_text.split('|')[1:] if not c['inorder'] else [fresh_text]):
-            f = part.split('/')
-            if len(f) > col and f[col] not in ('-', '~', '?'):
-                got |= set(f[col].split('.'))
+        got = returned_ids(c, fresh_text)
         first = full[:abs(n)]
         if n < 0 and len(full) > abs(n) and got == set(str(o) for _, o in first) and first != exp:
             sig = 'C12/last-n-returns-first-n'
         elif len(got) < len(exp):
             if c['src'] is not None and set(c['src']) != set(env.avail):
                 sig = 'C12/max-messages-before-source-filter'
+            elif undiscovered_in_scope(env, c):
+                sig = undiscovered_signature(c)
             elif c['rp1']:
                 sig = 'C12/max-messages-before-p1-time-filter'
             elif c['rsys']:
                 sig = 'C12/max-messages-before-system-time-filter'
     ctx.violation(sig, 'fresh read(%s) returned %s; the reader under the same filters gives %s' %
                   (describe(c), fresh_text[:300], exp[:40]), replay_obj(env, [c]))
+
+
+def check_default_sources(ctx, env, c):
+    """source_ids omitted = the reader's available source identifiers named explicitly (fresh loader both times)."""
+    if c['src'] is not None:
+        return
+    explicit = dict(c, src=tuple(env.avail))
+    ctx.count('default_vs_explicit_available_checked')
+    if env.fresh(c) != env.fresh(explicit):
+        ctx.violation('C12/default-source-ids-not-the-available-set',
+                      'fresh read(%s) returned %s; with source_ids=%s (get_available_source_ids() of the same fresh loader) it '
+                      'returns %s' % (describe(c), env.fresh(c)[:300], list(env.avail), env.fresh(explicit)[:300]),
+                      replay_obj(env, [c]))
+
+
+def brief(text, width=300):
+    """For messages: a dict result without the (many) requested types that hold nothing."""
+    if text.startswith('D|'):
+        parts = text.split('|')[1:]
+        full = [q for q in parts if any(ch.isdigit() for ch in q.split('/', 1)[-1]) or q.startswith('!')]
+        if len(full) < len(parts):
+            text = 'D|' + '|'.join(full) + ' (+%d requested types without messages)' % (len(parts) - len(full))
+    return text[:width]
 
 
 def describe(c):
@@ -609,6 +937,7 @@ def replay_obj(env, hist):
 def one_history(ctx, F, env, hist, reg, drops, lines, pending):
     rng = ctx.rng
     out, hits = env.run_history(hist)
+    avail_after = list(env.avail_after)
     ctx.count('calls', len(hist))
     ctx.count('cache_hits_observed', hits)
     for c in hist:
@@ -626,13 +955,36 @@ def one_history(ctx, F, env, hist, reg, drops, lines, pending):
             got, _ = env.run_history(small)
             ctx.violation(sig, 'after %s, read(%s) returned %s; a fresh loader returns %s' %
                           (' ; '.join('read(%s)' % describe(c) for c in small[:-1]), describe(small[-1]),
-                           got[-1][:300], env.fresh(small[-1])[:300]), replay_obj(env, small))
+                           brief(got[-1]), brief(env.fresh(small[-1]))), replay_obj(env, small))
             break
+    else:
+        # The default of source_ids is state of the loader's reader (get_available_source_ids()).  If a history changed it,
+        # a read with default arguments that is not served from the cache must still return what a fresh loader returns.
+        drift = [i for i, a in enumerate(avail_after) if a != env.avail]
+        if drift:
+            ctx.count('histories_that_changed_available_source_ids')
+            probe = hist[:drift[0] + 1] + [dict(DEFAULT_CALL, ic=True)]
+            if not transparent(env, probe):
+                small = shrink_history(env, probe)
+                got, _ = env.run_history(small)
+                ctx.violation(transparency_signature(env, small),
+                              'after %s, get_available_source_ids() is %s (fresh loader: %s) and read(%s) returned %s; a fresh '
+                              'loader returns %s' % (' ; '.join('read(%s)' % describe(c) for c in small[:-1]), avail_after[drift[0]],
+                                                     env.avail, describe(small[-1]), brief(got[-1]), brief(env.fresh(small[-1]))),
+                              replay_obj(env, small))
     # stage C
+    for c in hist:
+        if c['types'] is not None and c.get('tform', 'enum') != 'enum':
+            ctx.count('message_types_spelled_as_' + c['tform'])
     sels = {}
     for c in hist:
         k, s = env.selection(c)
         sels[k] = s
+    if any(v is None for v in sels.values()):
+        # the reader refuses a time range of this history (no P1 time in the log): compared with the fresh loader only
+        ctx.count('histories_with_a_time_range_the_reader_refuses')
+        ctx.count('calls_that_raise_in_such_histories', sum(1 for o in out if o.startswith('E:')))
+        return
     reader = '%s/%s/%s' % (drops, dots(env.avail, '-'), '|'.join('%s=%s' % (k, dots(v)) for k, v in sorted(sels.items())))
     line = 'loader %s %s %s %s %s' % (VARIANT, reg, reader, env.log_text(), ';'.join(call_text(F, c) for c in hist))
     lines.append(line)
@@ -678,16 +1030,23 @@ def run(ctx, nlogs, per_log, maxlen, fresh_spec=True):
     for li in range(nlogs):
         nan_p1 = rng.random() < 0.25
         spec = gen_log(rng, nan_p1)
+        if li == 1:
+            spec = gen_long_log(rng, nan_p1)        # every run has a log longer than the source-id sampling ...
+        elif li == 2:
+            spec = gen_untimed_log(rng)             # ... and one without P1 time (time ranges raise in the reader)
         env = Env(F, spec, 'log%d' % li)
-        if set(env.avail) != set(x[2] for x in spec):
-            ctx.count('logs_skipped_source_discovery_incomplete')
-            continue
+        ids = set(x[2] for x in spec)
         envs.append(env)
         ctx.count('logs')
+        ctx.count('logs_longer_than_source_id_sampling', int(len(spec) > 20))
+        ctx.count('logs_single_source', int(len(ids) == 1))
+        ctx.count('logs_with_undiscovered_source_ids', int(bool(ids - set(env.avail))))
+        ctx.count('logs_with_source_id_that_disappears',
+                  int(any(max(i for i, x in enumerate(spec) if x[2] == s) < len(spec) // 2 for s in ids) and len(ids) > 1))
         ctx.count('logs_with_untimed_p1_messages', int(nan_p1))
         ctx.count('messages', len(spec))
         for _ in range(per_log):
-            hist = gen_history(rng, spec, nan_p1, rng.choice(list(range(1, maxlen + 1)) + [maxlen]))
+            hist = gen_history(rng, spec, nan_p1, rng.choice(list(range(1, maxlen + 1)) + [maxlen]), env.avail)
             one_history(ctx, F, env, hist, reg, drops, lines, pending)
             if ctx.elapsed() > (900 if ctx.thorough else 70):
                 break
@@ -701,12 +1060,15 @@ def run(ctx, nlogs, per_log, maxlen, fresh_spec=True):
                     continue
                 for c in hist:
                     k = call_text(F, c)
-                    if k in seen:
+                    if call_key(F, c) in seen:
                         continue
-                    seen.add(k)
+                    seen.add(call_key(F, c))
                     check_fresh_spec(ctx, env, c, env.fresh(c))
                     ctx.count('fresh_spec_checked')
+                    check_default_sources(ctx, env, c)
                     tk, sel = env.selection(c)
+                    if sel is None:
+                        continue
                     reader = '%s/%s/%s=%s' % (drops, dots(env.avail, '-'), tk, dots(sel))
                     spec_lines.append('loaderspec %s %s %s %s' % (reg, reader, env.log_text(), k))
                     spec_pending.append((env, c))
@@ -714,12 +1076,22 @@ def run(ctx, nlogs, per_log, maxlen, fresh_spec=True):
     for (env, c), so in zip(spec_pending, spec_outs):
         f = env.fresh(c)
         if f != mask_model(so):
-            ctx.violation('C12/fresh-read-differs-from-spec', 'fresh read(%s) returned %s; the specification freshSpec gives %s' %
+            sig = 'C12/fresh-read-differs-from-spec'
+            if undiscovered_in_scope(env, c) and not f.startswith('E:'):
+                # Outside the hypothesis of C12_read_fresh_spec (an undiscovered source id in the selection of a call with a
+                # maximum).  It is the index-cut-before-source-test mechanism iff the model of the code, which has exactly
+                # that mechanism, predicts what the code returned.
+                tk, sel = env.selection(c)
+                reader = '%s/%s/%s=%s' % (drops, dots(env.avail, '-'), tk, dots(sel))
+                mo = ctx.driver(['loader %s %s %s %s %s' % (VARIANT, reg, reader, env.log_text(), call_text(F, c))])
+                if mo and mask_model(mo[0]) == f:
+                    sig = undiscovered_signature(c)
+            ctx.violation(sig, 'fresh read(%s) returned %s; the specification freshSpec gives %s' %
                           (describe(c), f[:300], mask_model(so)[:300]), replay_obj(env, [c]))
         ctx.count('lean_spec_checked')
     outs = ctx.driver(lines)
     for (env, hist, out), mo in zip(pending, outs):
-        impl = ';'.join(out)
+        impl = ';'.join(model_prefix(out))
         if impl != mask_model(mo):
             ctx.disagree('loader != model on %s : impl=%s model=%s' % (' ; '.join(describe(c) for c in hist), impl[:300], mask_model(mo)[:300]),
                          replay_obj(env, hist))
@@ -735,8 +1107,16 @@ def search(ctx):
 def check(ctx):
     ctx.cov['rule'] = ('logs of 6-16 messages built with the repository encoder (Pose, GNSSInfo, PoseAux with P1 times that coincide '
                        'across types, repeat and occasionally step back; EventNotification with system time only; ResetRequest with '
-                       'no time; two source ids; a quarter of the logs contain P1-type messages without valid P1 time and are read '
-                       'without alignment); call histories of length <= 3 (quick) / <= 4 (thorough) over message-type subsets '
+                       'no time; one or two source ids; a quarter of the logs contain P1-type messages without valid P1 time and are '
+                       'read without alignment), and (40%) logs of 15-120 messages of 1-3 types that are longer than what the reader '
+                       'samples for get_available_source_ids(): one source id only, ids used throughout, ids used only in the first '
+                       'messages, one or two ids first used in the tail (not discovered by the reader: the default of source_ids '
+                       'leaves them out), a tail of new ids only, ids at random; which ids are available is measured on the real '
+                       'reader; source_ids requested: default, every single id, all ids of the log, exactly the available set, the '
+                       'undiscovered ones, available + one undiscovered, an absent id; default/explicit pairs in both orders with '
+                       'and without a read over the whole log in between; get_available_source_ids() is observed after every call '
+                       'and, if a history changed it, a default read that bypasses the cache is appended and compared; a default '
+                       'read is also compared with the read that names the available set; call histories of length <= 3 (quick) / <= 4 (thorough) over message-type subsets '
                        '(including all types and a registered type absent from the log), absolute/relative time ranges, source-id '
                        'sets (including unavailable ones), max_messages of both signs and 0, require_p1_time, require_system_time, '
                        'return_in_order, return_message_index, return_numpy, keep_messages, remove_nan_times, time_align '
@@ -752,7 +1132,8 @@ def check(ctx):
         'max_bytes = None and return_bytes = False in every call (return_bytes with return_numpy makes MessageData.to_numpy raise '
         'a swallowed ValueError half way); every generated message deserialises; requested types are registered',
         'no message type has both P1 and system time (checked on the registry on every run; hypothesis of the theorems)',
-        'every source identifier of the log is among the reader\'s available ids (<= 10 messages per type; otherwise C10\'s open finding)',
+        'the reader\'s set of available source identifiers (sampled at construction, possibly incomplete) is a parameter of the '
+        'model; the specification of a fresh read takes "the default source_ids" to be that set, as the loader documents',
         'time alignment is modelled for P1 times that are not NaN (logs with untimed P1-type messages are read with time_align = NONE)',
     ]
     ctx.prove(MODULES)
@@ -775,7 +1156,7 @@ def replay(ctx, path):
     env = Env(F, spec, 'replay')
     hist = []
     for c in r['history']:
-        c = dict(c)
+        c = dict(DEFAULT_CALL, **c)
         for k in ('types', 'src', 'aligned', 'tr'):
             if c[k] is not None:
                 c[k] = tuple(c[k])
@@ -787,6 +1168,6 @@ def replay(ctx, path):
         check_fresh_spec(ctx, env, c, env.fresh(c))
     outs = ctx.driver(lines)
     for (env, hist, out), mo in zip(pending, outs):
-        if ';'.join(out) != mask_model(mo):
-            ctx.disagree('loader != model: impl=%s model=%s' % (';'.join(out)[:300], mask_model(mo)[:300]), replay_obj(env, hist))
+        if ';'.join(model_prefix(out)) != mask_model(mo):
+            ctx.disagree('loader != model: impl=%s model=%s' % (';'.join(model_prefix(out))[:300], mask_model(mo)[:300]), replay_obj(env, hist))
     return fv.finish(ctx, 'proof', None)
